@@ -22,8 +22,8 @@ CONSTANTS NG,        \* glyphs in the source font
           MaxEdges,  \* components in the whole font
           NHMs       \* values of numberOfHMetrics explored
 
-VARIABLES src, req, s, pc, hm
-vars == <<src, req, s, pc, hm>>
+VARIABLES src, req, s, pc, hm, rep
+vars == <<src, req, s, pc, hm, rep>>
 
 Ids == 0 .. NG - 1
 
@@ -90,6 +90,8 @@ MkComp(t, g, k, tp) ==
           ELSE IF tp.args = "p" THEN k ELSE 2 + k]
 \* instructions: on two of three non-empty glyphs of a case (composites: WE_HAVE_INSTRUCTIONS on the last component)
 InstrOf(g, r, h) == IF (g + Len(r) + h) % 3 = 0 THEN <<>> ELSE <<176, g, 177, Len(r), h, 33>>
+\* a glyph without contours may still carry instructions (a record with numberOfContours = 0): every other one does
+EmptyInstr(g, r, h) == (g + Len(r) + h) % 2 = 0
 AdvVal(k) == 500 + 10 * k
 LsbVal(g) == 3 * g - 4
 EmptyRule(g, r, h) == (2 * g + Len(r) + h) % 7 = 6
@@ -100,23 +102,45 @@ MkSrc(gr, r, h) ==
                                 ELSE IF EmptyRule(i - 1, r, h) THEN "empty" ELSE "simple"],
    shape |-> [i \in 1 .. NG |-> i - 1],
    comp  |-> [i \in 1 .. NG |-> [k \in 1 .. Len(gr[i]) |-> MkComp(gr[i][k], i - 1, k, TemplateOf(i - 1, k, r, h))]],
-   instr |-> [i \in 1 .. NG |-> IF gr[i] = <<>> /\ EmptyRule(i - 1, r, h) THEN <<>> ELSE InstrOf(i - 1, r, h)],
+   instr |-> [i \in 1 .. NG |-> IF gr[i] = <<>> /\ EmptyRule(i - 1, r, h) /\ ~EmptyInstr(i - 1, r, h) THEN <<>> ELSE InstrOf(i - 1, r, h)],
    nhm   |-> h,
    long  |-> [k \in 1 .. h |-> [adv |-> AdvVal(k - 1), lsb |-> LsbVal(k - 1)]],
    tail  |-> [j \in 1 .. NG - h |-> LsbVal(h + j - 1)]]
 
+\* The representation of a case (Subset.tla, "representation choices of the source"): every component
+\* rotates with a number computed from the whole case, so that over a run every graph shape, list length and
+\* numberOfHMetrics meets every choice without multiplying the cases; composites of one font get different
+\* numberOfContours values.
+RECURSIVE SumSeq(_, _)
+SumSeq(q, i) == IF i > Len(q) THEN 0 ELSE i * (q[i] + 1) + SumSeq(q, i + 1)
+GraphNum(gr) == SumSeq([i \in 1 .. Len(gr) |-> 7 * Len(gr[i]) + SumSeq(gr[i], 1)], 1)
+CaseNum(gr, r, h) == GraphNum(gr) + 5 * SumSeq(r, 1) + 3 * h
+NCSeq == <<-1, -2, -32768>>
+LocaSeq == <<"short", "long", "long-unpadded", "long-gaps">>
+EmptySeq == <<"no-bytes", "zero-contours">>
+SimpleSeq == <<"short-vectors", "words-repeat", "overlap-bit">>
+DirSeq == <<"sorted", "unsorted">>
+MkRep(gr, r, h) ==
+  LET k == CaseNum(gr, r, h) IN
+  [ncc    |-> [i \in 1 .. NG |-> NCSeq[((k + i) % 3) + 1]],
+   loca   |-> LocaSeq[((k \div 3) % 4) + 1],
+   empty  |-> EmptySeq[((k \div 2) % 2) + 1],
+   simple |-> SimpleSeq[((k \div 5) % 3) + 1],
+   dir    |-> DirSeq[((k \div 7) % 2) + 1]]
+
 Init ==
   \E gr \in Graphs(NG, MaxEdges), r \in ReqLists, h \in NHMs :
+    /\ rep = MkRep(gr, r, h)
     /\ src = MkSrc(gr, r, h)
     /\ req = r
     /\ s = Glyf0(r)
     /\ pc = "glyf"
     /\ hm = <<>>
 
-GlyfLoop == pc = "glyf" /\ GlyfMore(s)  /\ s' = GlyfStep(TargetFn(src), s) /\ UNCHANGED <<src, req, pc, hm>>
-GlyfEnd  == pc = "glyf" /\ ~GlyfMore(s) /\ pc' = "hmtx" /\ UNCHANGED <<src, req, s, hm>>
-HmtxLoop == pc = "hmtx" /\ Len(hm) < Len(s.recs) /\ hm' = HmtxStep(src, s.recs, hm) /\ UNCHANGED <<src, req, s, pc>>
-HmtxEnd  == pc = "hmtx" /\ Len(hm) = Len(s.recs) /\ pc' = "done" /\ UNCHANGED <<src, req, s, hm>>
+GlyfLoop == pc = "glyf" /\ GlyfMore(s)  /\ s' = GlyfStep(TargetFn(src), s) /\ UNCHANGED <<src, req, pc, hm, rep>>
+GlyfEnd  == pc = "glyf" /\ ~GlyfMore(s) /\ pc' = "hmtx" /\ UNCHANGED <<src, req, s, hm, rep>>
+HmtxLoop == pc = "hmtx" /\ Len(hm) < Len(s.recs) /\ hm' = HmtxStep(src, s.recs, hm) /\ UNCHANGED <<src, req, s, pc, rep>>
+HmtxEnd  == pc = "hmtx" /\ Len(hm) = Len(s.recs) /\ pc' = "done" /\ UNCHANGED <<src, req, s, hm, rep>>
 Next == GlyfLoop \/ GlyfEnd \/ HmtxLoop \/ HmtxEnd
 Spec == Init /\ [][Next]_vars
 
@@ -172,7 +196,11 @@ KeptOK ==
            /\ out.comp[n + 1][k].w = src.comp[o + 1][k].w                      \* Dev_ArgWidth, the machine's choice
            /\ OldId(s.recs, out.comp[n + 1][k].g) = src.comp[o + 1][k].g       \* the one field that changes
 
-DesignOK == SrcOK /\ LoopOK /\ GlyfOK /\ HmtxOK /\ DoneOK /\ KeptOK
+\* the representation of the case is one of Reps and decodes to the abstract font of the case; what is prescribed
+\* below (Prescribed) is computed from src alone
+RepOK == WellFormedRep(src, rep) /\ RepIndependent(src, rep)
+
+DesignOK == SrcOK /\ RepOK /\ LoopOK /\ GlyfOK /\ HmtxOK /\ DoneOK /\ KeptOK
 
 \* ---- CASE lines --------------------------------------------------------------------
 RECURSIVE SortSet(_)
@@ -194,6 +222,8 @@ Case ==
    comp  |-> [i \in 1 .. NG |-> [k \in 1 .. Len(src.comp[i]) |->
                 LET c == src.comp[i][k] IN <<c.g, c.fl, IF c.w THEN 1 ELSE 0, c.a1, c.a2, c.tr>>]],
    instr |-> src.instr,
+   \* how the harness is to write the source (a choice that the prescription does not depend on)
+   rep   |-> rep,
    req   |-> req,
    exp   |-> [n     |-> Len(s.recs),
               head  |-> [i \in 1 .. Len(req) |-> Prescribed(req[i])],
